@@ -138,6 +138,22 @@ Proof.
   intros l1 l2 Hp Hnd. unfold define_constants. f_equal. apply sort_by_perm_invariant; assumption.
 Qed.
 
+(* REFUTED without the uniqueness hypothesis: two entries of one name and
+   different widths (the same numeric constant used at 32 and at 64 bits,
+   a constant table keyed by name AND width): the map order decides which
+   width is wired. *)
+Theorem define_constants_ties_refuted :
+  exists l1 l2 : list (N * nat), Permutation l1 l2 /\ define_constants l1 <> define_constants l2.
+Proof.
+  exists [(5%N, 32); (5%N, 64)], [(5%N, 64); (5%N, 32)]. split; [apply perm_swap|].
+  vm_compute. intros Heq; discriminate Heq.
+Qed.
+
+Example define_constants_ties_first_wins :
+  define_constants [(5%N, 32); (7%N, 8); (5%N, 64)] = [IConst 5 0 32; IConst 7 32 8]
+  /\ define_constants [(5%N, 64); (7%N, 8); (5%N, 32)] = [IConst 5 0 64; IConst 7 64 8].
+Proof. split; vm_compute; reflexivity. Qed.
+
 (* ================================================================== *)
 (* 2.  LookupOnly: unique match                                         *)
 (* ================================================================== *)
@@ -461,7 +477,7 @@ Example fixed_model_listing_nontrivial :
   compile cls_fixed o_rev w_prog =
   [IBlock 2 1 0; ITypeId 3 9 2147483648; IBlock 3 1 1; IMain 1 1; ICall 2 1 0; ICall 3 1 0; ICall 2 1 1;
    ITypeStr (Some [98; 111; 111; 108]%N); ITypeStr (Some [117; 105; 110; 116]%N);
-   IConst 5 0; IConst 7 4; IPad 7]%N.
+   IConst 5 0 4; IConst 7 4 8; IPad 7]%N.
 Proof. vm_compute. reflexivity. Qed.
 
 (* ================================================================== *)
